@@ -236,7 +236,7 @@ package db
 //@   ensures [invalid] id < 1 ==> err != nil
 
 //@ func db.addOverflow
-//@   props C01 C02 C05 C12 C14
+//@   props C01 C02 C05 C12 C14 C18
 //@   modifies M:bv8 alloc
 //@   requires wf_payload(pl) && db != nil
 //@   ensures [len] err == nil ==> len(r0) == pl.Length
